@@ -139,6 +139,8 @@ _XF = S([T(1, estimate=8)], externals=[{'id': 100, 'start': dt(2026, 1, 1), 'end
 fixed('C03', 'C03/row-not-of-this-schedule', 'b0009eb', 'backward: a successor outside the WBS (dated task of another project, estimate 16) is scheduled like a member: the usage report books capacity for it although it is not a task of the returned schedule (F-S10)', _XB)
 fixed('C04', 'C04/rows-of-tasks-outside-the-schedule', 'b0009eb', 'forward: the undated child of an outside summary predecessor is scheduled and gets usage rows although it is not a task of the returned schedule (F-S10)', _XF)
 fixed('C04', 'C04/rows-of-tasks-outside-the-schedule', 'b0009eb', 'backward: usage rows for a successor outside the WBS (F-S10)', _XB)
+fixed('C14', 'C14/TypeError/fwd', '027265b', "a Resource named None (the resource of tasks without a resource name) that runs out of capacity: the RuntimeError message formats the resource, Resource.__str__ returns None, calc dies with TypeError: __str__ returned non-string (F-S11)",
+      S([T(1, estimate=40)], resources={'<none>': ['direct', [[dt(2026, 1, 5), 2]]]}, **{'class': 'any'}))
 
 
 def CP(tasks, links, ext=()):
@@ -189,6 +191,10 @@ fixed('C13', 'C13/roundtrip-min_start', 'f2d38b6', 'min_start is not restored by
 fixed('C13', 'C13/hand-written-read-raised-KeyError/bom', '37ad3e3', 'a fully quoted file with a UTF-8 BOM fails with KeyError: id (F-I3)',
       {'kind': 'hand', 'model': {'kind': 'csv', 'tasks': [CT(1)], 'links': []},
        'opts': {'eol': '\n', 'bom': True, 'quoting': 'all', 'custom_order': 'sorted', 'no_final_eol': False, 'false_text': 'False'}})
+fixed('C13', 'C13/hand-written-read-raised-KeyError/bom', 'ae229dd', "a fully quoted file with a UTF-8 BOM read with encoding='utf_8' (or 'U8', 'UTF8': other spellings of UTF-8) fails with KeyError: id (F-I4)",
+      {'kind': 'hand', 'model': {'kind': 'csv', 'tasks': [CT(1)], 'links': []},
+       'opts': {'eol': '\n', 'bom': True, 'quoting': 'all', 'custom_order': 'sorted', 'no_final_eol': False, 'false_text': 'False', 'read_encoding': 'utf_8'}},
+      pinned_key='C13/hand-written-read-raised-KeyError/bom')
 
 fixed('C19', 'C19/gantt/task-lines', '6557d2b', "Mermaid gantt: a name containing '</div>' swallows the following task lines when the page is parsed as HTML (F-V1)",
       {'kind': 'viz', 'sched': _two, 'names': {'1': 'a</div>b', '2': 'plain'}, 'sections': {}, 'now': dt(2020, 1, 1), 'styles': False})
